@@ -17,6 +17,7 @@ import ast
 from sa.model import AnalysisError, norm
 from sa.patheval import Interp, Native, Obj, Sym, Top, Raise, FuncRef, UnknownMethod, ClassRef
 from sa.report import RuleResult
+from sa.rules.common import callee_qual
 
 
 class PosIO(Native):
@@ -115,7 +116,9 @@ class SecInterp(Interp):
     def on_call(self, text, callee, args, kwargs, node, frame):
         if text.startswith('log.'):
             return None
-        if text in ('self.process_template_data', 'self.process_unexpanded_descriptors'):
+        q = callee_qual(callee) or ''
+        if text in ('self.process_template_data', 'self.process_unexpanded_descriptors') or q.split('.')[-1] in ('process_template_data', 'process_unexpanded_descriptors'):
+            text = 'self.' + (q.split('.')[-1] if q else text.split('.')[-1])
             io = [a for a in args if isinstance(a, PosIO)]
             if io:
                 io[0].pos += self.data_bits
@@ -155,7 +158,8 @@ class EncInterp(SecInterp):
         return self.NOT_HANDLED
 
     def on_call(self, text, callee, args, kwargs, node, frame):
-        if text == 'self.section_configurer.configure_section_with_values':
+        q = callee_qual(callee) or ''
+        if text == 'self.section_configurer.configure_section_with_values' or q == 'SectionConfigurer.configure_section_with_values':
             if self.k >= len(self.script):
                 raise Raise('ScriptExhausted', node, self.where(node, frame))
             sec = self.script[self.k]
@@ -164,9 +168,9 @@ class EncInterp(SecInterp):
             return sec
         if text == 'get_bit_writer':
             return PosIO(0)
-        if text == 'BufrMessage':
+        if text == 'BufrMessage' or q == 'class:BufrMessage':
             return Obj('BufrMessage', {})
-        if text == 'bufr_message.wire':
+        if text == 'bufr_message.wire' or q == 'BufrMessage.wire':
             self.event('wire')
             return None
         return SecInterp.on_call(self, text, callee, args, kwargs, node, frame)
@@ -398,7 +402,8 @@ class ProcInterp(SecInterp):
         self.cur = None
 
     def on_call(self, text, callee, args, kwargs, node, frame):
-        if text == 'self.section_configurer.configure_section':
+        q = callee_qual(callee) or ''
+        if text == 'self.section_configurer.configure_section' or q == 'SectionConfigurer.configure_section':
             if self.k >= len(self.script):
                 raise Raise('ScriptExhausted', node, self.where(node, frame))
             sec, n = self.script[self.k]
@@ -406,14 +411,14 @@ class ProcInterp(SecInterp):
             self.cur = n
             self.event('configure', args[1] if len(args) > 1 else None, list(args[2]) if len(args) > 2 and isinstance(args[2], (list, tuple)) else args[2:] )
             return sec
-        if text == 'self.process_section':
+        if text == 'self.process_section' or q.split('.')[-1] == 'process_section':
             self.event('process_section', self.cur)
             return self.cur
         if text in ('get_bit_reader',):
             return PosIO(0)
-        if text == 'BufrMessage':
+        if text == 'BufrMessage' or q == 'class:BufrMessage':
             return Obj('BufrMessage', {})
-        if text == 'bufr_message.wire':
+        if text == 'bufr_message.wire' or q == 'BufrMessage.wire':
             self.event('wire')
             return None
         if isinstance(callee, UnknownMethod) and isinstance(callee.recv, Sym) and callee.name == 'find':
